@@ -81,6 +81,23 @@ struct ReclAdapter : Adapter {
     if (c != 0xA11CE) { xv::Quiet q; violation = "guarded node " + std::to_string(id) + " was destroyed while a guard_ptr protects it (canary " + std::to_string(c) + ")"; xv::fail(xv::S_ORACLE, violation); return "DEAD"; }
     xv::Quiet q; return std::to_string(id);
   }
+  // identity oracle: the object a persistent guard holds cannot change while the guard holds it - if the id read through the
+  // guard differs from the id seen when the guard was set, the object was reclaimed and its memory reused under the guard
+  std::map<std::pair<int, long>, long> heldid;
+  std::string derefk(int tid, long k) {
+    auto& g = (*guards[tid])[k];
+    std::string r = deref(g);
+    if (r == "null" || r == "DEAD") return r;
+    long was = heldid[{tid, k}], now = atol(r.c_str());
+    if (was != 0 && was != now) { xv::Quiet q; violation = "guard " + std::to_string(k) + " of T" + std::to_string(tid) + " was set on node " + std::to_string(was) + " and now reads node " + std::to_string(now) + ": the object was reclaimed and its memory reused while a guard_ptr protects it"; xv::fail(xv::S_ORACLE, violation); return "DEAD"; }
+    return r;
+  }
+  std::string setk(int tid, long k) {   // after an acquisition into guard k
+    auto& g = (*guards[tid])[k];
+    std::string r = deref(g);
+    { xv::Quiet q; heldid[{tid, k}] = (r == "null" || r == "DEAD") ? 0 : atol(r.c_str()); }
+    return r;
+  }
   std::string exec(int tid, const OpSpec& op) override {
     auto& G = *guards[tid];
     const std::string& o = op.name;
@@ -111,14 +128,14 @@ struct ReclAdapter : Adapter {
       }
       if (o == "read") { Guard g; g.acquire((*cells)[a], std::memory_order_acquire); return deref(g); }
       if (o == "readeq") { MPtr e = (*cells)[a].load(std::memory_order_relaxed); Guard g; bool r = g.acquire_if_equal((*cells)[a], e, std::memory_order_acquire); if (!r) { if (g) return "BAD-nonempty-after-false"; return "ne"; } if (MPtr(g) != e) return "BAD-snapshot"; return deref(g); }
-      if (o == "hold") { G[b].acquire((*cells)[a], std::memory_order_acquire); return deref(G[b]); }
-      if (o == "holdeq") { MPtr e = (*cells)[a].load(std::memory_order_relaxed); bool r = G[b].acquire_if_equal((*cells)[a], e, std::memory_order_acquire); if (!r) return G[b] ? "BAD-nonempty-after-false" : "ne"; if (MPtr(G[b]) != e) return "BAD-snapshot"; return deref(G[b]); }
-      if (o == "deref") return deref(G[a]);
-      if (o == "drop") { G[a].reset(); return G[a] ? "BAD" : "ok"; }
-      if (o == "copy") { G[b] = G[a]; return deref(G[b]); }
-      if (o == "move") { if (a != b) { G[b] = std::move(G[a]); if (G[a]) return "BAD-source-not-empty"; } return deref(G[b]); }
-      if (o == "swap") { G[a].swap(G[b]); return deref(G[a]) + "/" + deref(G[b]); }
-      if (o == "self") { Guard& r = G[a]; G[a] = r; return deref(G[a]); }
+      if (o == "hold") { { xv::Quiet q; heldid[{tid, b}] = 0; } G[b].acquire((*cells)[a], std::memory_order_acquire); return setk(tid, b); }
+      if (o == "holdeq") { { xv::Quiet q; heldid[{tid, b}] = 0; } MPtr e = (*cells)[a].load(std::memory_order_relaxed); bool r = G[b].acquire_if_equal((*cells)[a], e, std::memory_order_acquire); if (!r) return G[b] ? "BAD-nonempty-after-false" : "ne"; if (MPtr(G[b]) != e) return "BAD-snapshot"; return setk(tid, b); }
+      if (o == "deref") return derefk(tid, a);
+      if (o == "drop") { G[a].reset(); { xv::Quiet q; heldid[{tid, a}] = 0; } return G[a] ? "BAD" : "ok"; }
+      if (o == "copy") { long src; { xv::Quiet q; src = heldid[{tid, a}]; heldid[{tid, b}] = 0; } G[b] = G[a]; { xv::Quiet q; heldid[{tid, b}] = src; } return derefk(tid, b); }
+      if (o == "move") { if (a != b) { long src; { xv::Quiet q; src = heldid[{tid, a}]; heldid[{tid, b}] = 0; } G[b] = std::move(G[a]); { xv::Quiet q; heldid[{tid, b}] = src; heldid[{tid, a}] = 0; } if (G[a]) return "BAD-source-not-empty"; } return derefk(tid, b); }
+      if (o == "swap") { G[a].swap(G[b]); { xv::Quiet q; std::swap(heldid[{tid, a}], heldid[{tid, b}]); } return derefk(tid, a) + "/" + derefk(tid, b); }
+      if (o == "self") { Guard& r = G[a]; G[a] = r; return derefk(tid, a); }
       if (o == "cctor") { Guard t(G[a]); std::string r = deref(t); return r; }
       if (o == "mctor") { Guard t(std::move(G[a])); if (G[a]) return "BAD-source-not-empty"; std::string r = deref(t); G[a] = std::move(t); return r; }
       if (o == "enter") { if (!region[tid]) region[tid] = new typename R::region_guard(); return "ok"; }
